@@ -342,8 +342,70 @@ fn emit_verify(w: &mut W, out: &mut Out, lib: &Address, sorted: bool, c: &VCall)
     }
 }
 
+/// boundary catalogue of the digest type: values that are legal 32-byte strings but that a random draw never
+/// produces (an implementation may treat them as "empty", "padding", "unset" or a sentinel)
+const ZERO: Dg = [0u8; 32];
+fn specials(w: &W) -> std::vec::Vec<(&'static str, Dg)> {
+    let mut one = [0u8; 32]; one[31] = 1;
+    let mut high = [0u8; 32]; high[0] = 0x80;
+    std::vec![("zero", ZERO), ("ones", [0xFFu8; 32]), ("one", one), ("high", high), ("empty-hash", w.raw_hash(&[]))]
+}
+
+/// the running node after the first `k` proof elements (all evaluations recorded)
+fn running(w: &mut W, sorted: bool, v: Dg, idx: u32, p: &[Dg], k: usize) -> Dg {
+    let (mut acc, mut i) = (v, idx);
+    for h in &p[..k] { acc = if sorted { w.cp(acc, *h) } else if i % 2 == 0 { w.hp(acc, *h) } else { w.hp(*h, acc) }; i /= 2; }
+    acc
+}
+
+/// corruptions of (leaf, proof, root) of one node with the special digests: the all-zero digest at EVERY position
+/// of the proof (inserted), replacing an element, as the whole proof, as value and as root; the other special
+/// digests (all of them with `all`, else one drawn) inserted / replacing / as value / as root; the running node
+/// itself inserted at an interior position (a pair of equal children)
+fn special_corruptions(w: &mut W, sorted: bool, root: Dg, q: &NodeInfo, all: bool, full: bool) -> std::vec::Vec<VCall> {
+    let mut cs = vec![];
+    let idx = q.index as u32;
+    let len = q.proof.len();
+    let mk = |label: String, p: std::vec::Vec<Dg>, r: Dg, v: Dg, i: u32| VCall { label, p, r, v, i };
+    let sp = specials(w);
+    let one = if all { usize::MAX } else { 1 + w.rng.below(sp.len() as u64 - 1) as usize };
+    for (k, (name, s)) in sp.iter().enumerate() {
+        let zero = k == 0;
+        if !zero && !all && k != one { continue; }
+        let tag = if zero { "zero" } else { "special" };
+        let _ = name;
+        if len < 31 {
+            // inserted: the all-zero digest at every position (front, every interior position, end); the others at one position
+            let interior = if len >= 2 { 1 + w.rng.below(len as u64 - 1) as usize } else { 0 };
+            let rj = w.rng.below(len as u64 + 1) as usize;
+            for j in 0..=len {
+                let want = if zero { full || len <= 3 || j == 0 || j == len || j == interior } else { j == rj || (all && (j == 0 || j == len)) };
+                if !want { continue; }
+                let mut p = q.proof.clone(); p.insert(j, *s);
+                cs.push(mk(format!("proof-extend-{}", tag), p, root, q.hash, idx));
+            }
+        }
+        if len > 0 {
+            let j = w.rng.below(len as u64) as usize;
+            let mut p = q.proof.clone(); p[j] = *s;
+            if p != q.proof { cs.push(mk(format!("proof-alter-{}", tag), p, root, q.hash, idx)); }
+        }
+        if len > 1 && (zero || all) { cs.push(mk(format!("proof-all-{}", tag), vec![*s; len], root, q.hash, idx)); }
+        if *s != q.hash { cs.push(mk(format!("leaf-{}", tag), q.proof.clone(), root, *s, idx)); }
+        if *s != root { cs.push(mk(format!("root-{}", tag), q.proof.clone(), *s, q.hash, idx)); }
+    }
+    // the running node inserted where it stands (the next level would pair it with itself)
+    if len >= 2 && len < 31 {
+        let j = 1 + w.rng.below(len as u64 - 1) as usize;
+        let acc = running(w, sorted, q.hash, idx, &q.proof, j);
+        let mut p = q.proof.clone(); p.insert(j, acc);
+        cs.push(mk("proof-insert-running".into(), p, root, q.hash, idx));
+    }
+    cs
+}
+
 /// honest call + every single-element corruption of (leaf, proof, index, root) for one node
-fn corruptions(w: &mut W, sorted: bool, root: Dg, q: &NodeInfo, all: &[NodeInfo], other_root: Dg, full: bool) -> std::vec::Vec<VCall> {
+fn corruptions(w: &mut W, sorted: bool, root: Dg, q: &NodeInfo, all: &[NodeInfo], other_root: Dg, full: bool, special: bool) -> std::vec::Vec<VCall> {
     let mut cs = vec![];
     let idx = q.index as u32;
     let len = q.proof.len();
@@ -406,6 +468,7 @@ fn corruptions(w: &mut W, sorted: bool, root: Dg, q: &NodeInfo, all: &[NodeInfo]
         cs.push(mk("subtree-root-honest", q.proof[..k].to_vec(), acc, q.hash, sub_idx));
         cs.push(mk("root-subtree", q.proof.clone(), acc, q.hash, idx));
     }
+    if special { cs.extend(special_corruptions(w, sorted, root, q, false, full)); }
     cs
 }
 
@@ -443,8 +506,10 @@ fn verify_trace(out: &mut Out, rng: &mut Rng, hk: Hk, shape: Shape, n: usize, sa
             let c = VCall { label: if dup { "honest-dup-tree" } else { "honest" }.into(), p: q.proof.clone(), r: root, v: q.hash, i: q.index as u32 };
             emit_verify(&mut w, out, &lib, sorted, &c);
         }
+        // the special digests (boundary catalogue of the digest type): on the deepest picked leaf of each form
+        let spk = *pick.iter().filter(|k| nodes[**k].leaf).max_by_key(|k| nodes[**k].proof.len()).unwrap();
         for k in pick {
-            let cs = corruptions(&mut w, sorted, root, &nodes[k], &nodes, oroot, full);
+            let cs = corruptions(&mut w, sorted, root, &nodes[k], &nodes, oroot, full, k == spk);
             for c in cs.iter().skip(1) { emit_verify(&mut w, out, &lib, sorted, c); }
         }
     }
@@ -517,15 +582,81 @@ fn chain_trace(out: &mut Out, rng: &mut Rng, hk: Hk, n: usize, right: bool) {
     w.finish(out, &desc, EMPTY_OBS, 0);
 }
 
+/// trees that CONTAIN the special digests: (A) leaves alternating random values and the special digests (the honest
+/// proof of a random leaf contains a special digest as its first element), (B) a tree padded with all-zero leaves to
+/// eight leaves (the honest proofs contain the all-zero digest and the hashes of all-zero subtrees; the padding value
+/// has several honest proofs). Every leaf with its honest proof in both forms, the special corruptions of every
+/// (distinct) leaf with ALL special digests, and the verifications of an all-zero value against an all-zero root.
+fn special_trace(out: &mut Out, rng: &mut Rng, hk: Hk, shape: Shape, hostcfg: usize) {
+    let mut w = W::new(hk, rng.fork(77_000), hostcfg);
+    let lib = match hk { Hk::S => w.e.register(libs::Lib, ()), Hk::K => w.e.register(libk::Lib, ()) };
+    let sp = specials(&w);
+    let mut r2 = w.rng.fork(7);
+    // (A) random / special alternating
+    let mut la: std::vec::Vec<Dg> = vec![];
+    for (_, s) in sp.iter() { la.push(w.rand_digest()); la.push(*s); }
+    if w.rng.chance(1, 2) { la.rotate_left(1); }
+    let ta = build(shape, &la, &mut r2);
+    // (B) three data leaves and five all-zero padding leaves
+    let mut lb: std::vec::Vec<Dg> = (0..3).map(|_| w.rand_digest()).collect();
+    lb.extend([ZERO; 5]);
+    let tb = build(Shape::Pow2, &lb, &mut r2);
+    // (C) data leaves and padding interleaved, the seed's shape
+    let mut lc: std::vec::Vec<Dg> = vec![];
+    for _ in 0..3 { lc.push(w.rand_digest()); lc.push(ZERO); }
+    let tc = build(shape, &lc, &mut r2);
+    w.strees = vec![ta.clone(), tb.clone(), tc.clone()]; w.itrees = vec![ta.clone(), tb.clone(), tc.clone()];
+    for sorted in [true, false] {
+        for (t, name) in [(&ta, "special-leaf-tree"), (&tb, "zero-padded-tree"), (&tc, "zero-padded-tree")] {
+            let (root, nodes) = w.nodes(t, sorted);
+            let mut seen: std::vec::Vec<Dg> = vec![];
+            for q in nodes.iter().filter(|q| q.leaf) {
+                let c = VCall { label: format!("honest-{}", name), p: q.proof.clone(), r: root, v: q.hash, i: q.index as u32 };
+                emit_verify(&mut w, out, &lib, sorted, &c);
+                if seen.contains(&q.hash) { continue; }
+                seen.push(q.hash);
+                // tree A: the random leaves with ALL special digests; the padded trees: every distinct leaf with the all-zero one and one drawn
+                let is_special = sp.iter().any(|(_, s)| *s == q.hash);
+                if name == "special-leaf-tree" && is_special { continue; }
+                let cs = special_corruptions(&mut w, sorted, root, q, name == "special-leaf-tree", true);
+                for c in cs.iter() { emit_verify(&mut w, out, &lib, sorted, c); }
+                // the hash of the all-zero pair (a node of the padded trees) inserted / as value
+                let z1 = w.pair(sorted, ZERO, ZERO);
+                let j = w.rng.below(q.proof.len() as u64 + 1) as usize;
+                let mut p = q.proof.clone(); p.insert(j, z1);
+                emit_verify(&mut w, out, &lib, sorted, &VCall { label: "proof-extend-zero-pair".into(), p, r: root, v: q.hash, i: q.index as u32 });
+            }
+        }
+        // all-zero value against an all-zero root: the one-node tree is accepted with the empty proof only
+        for len in 0..4usize {
+            let c = VCall { label: if len == 0 { "trivial-tree-zero".into() } else { "zero-root-zero-proof".to_string() }, p: vec![ZERO; len], r: ZERO, v: ZERO, i: 0 };
+            emit_verify(&mut w, out, &lib, sorted, &c);
+        }
+        // a non-zero value, all-zero proofs, its own value as root (no element is neutral)
+        let v = *la.iter().find(|x| !sp.iter().any(|(_, s)| s == *x)).unwrap();
+        for len in 1..3usize {
+            let c = VCall { label: "self-root-zero-proof".into(), p: vec![ZERO; len], r: v, v, i: 0 };
+            emit_verify(&mut w, out, &lib, sorted, &c);
+        }
+    }
+    let desc = format!("special digests {} {:?}", hk.name(), shape);
+    w.finish(out, &desc, EMPTY_OBS, 0);
+}
+
 // ------------------------------------------------------------------ distributor traces
 #[derive(Clone)]
 struct LeafData { index: u32, addr: usize, amount: i128, hash: Dg, proof: std::vec::Vec<Dg>, misplaced: bool }
 
 /// build a tree of leaf data; with `positional` the index of every leaf is its position at its depth
-fn data_tree(w: &mut W, n: usize, shape: Shape, positional: bool, naddr: usize, amounts: &dyn Fn(&mut Rng, usize) -> i128, idx_base: u32) -> (T, Dg, std::vec::Vec<LeafData>) {
+/// `pad` all-zero padding leaves are interleaved with the data leaves (after each of the first `pad` data leaves; the
+/// rest at the end): they are leaves of the tree that are the hash of no data, so nothing can be claimed for them
+fn data_tree(w: &mut W, n: usize, shape: Shape, positional: bool, naddr: usize, amounts: &dyn Fn(&mut Rng, usize) -> i128, idx_base: u32, pad: usize) -> (T, Dg, std::vec::Vec<LeafData>) {
     let mut r2 = w.rng.fork(11);
-    // shape first (with placeholder leaves numbered 0..n), then positions, then the data
-    let ph: std::vec::Vec<Dg> = (0..n).map(|k| { let mut d = [0u8; 32]; d[0] = k as u8; d[1] = 0xEE; d }).collect();
+    // shape first (with placeholder leaves numbered 0..n for the data, n.. for the padding), then positions, then the data
+    let mut order: std::vec::Vec<usize> = vec![];
+    for k in 0..n { order.push(k); if k < pad { order.push(n + k); } }
+    for k in n.min(pad)..pad { order.push(n + k); }
+    let ph: std::vec::Vec<Dg> = order.iter().map(|k| { let mut d = [0u8; 32]; d[0] = *k as u8; d[1] = 0xEE; d }).collect();
     let tshape = build(shape, &ph, &mut r2);
     fn positions(t: &T, depth: u32, pos: u64, acc: &mut std::vec::Vec<(usize, u32, u64)>) {
         match t { T::L(d) => acc.push((d[0] as usize, depth, pos)), T::N(l, r) => { positions(l, depth + 1, pos * 2, acc); positions(r, depth + 1, pos * 2 + 1, acc); } }
@@ -535,6 +666,7 @@ fn data_tree(w: &mut W, n: usize, shape: Shape, positional: bool, naddr: usize, 
     let mut posof: std::vec::Vec<u64> = vec![0; n];
     let mut misplaced: std::vec::Vec<bool> = vec![false; n];
     for (k, depth, p) in &pos {
+        if *k >= n { continue; }
         posof[*k] = *p;
         // positional trees with >= 3 leaves: the last leaf carries an index that is NOT its position
         let mis = positional && n >= 3 && *k == n - 1 && *depth >= 1;
@@ -543,7 +675,8 @@ fn data_tree(w: &mut W, n: usize, shape: Shape, positional: bool, naddr: usize, 
         let addr = if w.rng.chance(1, 8) { 0 } else { 1 + w.rng.below(naddr as u64) as usize };
         data[*k] = (index, addr, amounts(&mut w.rng, *k));
     }
-    let hashes: std::vec::Vec<Dg> = data.iter().map(|(i, a, m)| w.lh(*i, *a, *m)).collect();
+    let mut hashes: std::vec::Vec<Dg> = data.iter().map(|(i, a, m)| w.lh(*i, *a, *m)).collect();
+    hashes.extend(std::iter::repeat(ZERO).take(pad));
     fn subst(t: &T, hs: &[Dg]) -> T { match t { T::L(d) => T::L(hs[d[0] as usize]), T::N(l, r) => T::N(Box::new(subst(l, hs)), Box::new(subst(r, hs))) } }
     let t = subst(&tshape, &hashes);
     let (root, nodes) = w.nodes(&t, !positional);
@@ -620,8 +753,13 @@ fn do_advance(w: &mut W, out: &mut Out, d: &Dist, k: u32) {
 /// corrupted proofs / data, leaves of the other tree, root changes
 const GAPS: [u32; 6] = [20, 100, 17_281, 20_000, 600_000, 4_000_000];
 
-const CORRUPTIONS: [&str; 9] = ["proof-of-other", "proof-altered", "proof-dropped", "proof-extended", "amount-altered",
-                                 "address-altered", "index-altered", "other-tree", "proof-len-32"];
+const CORRUPTIONS: [&str; 15] = ["proof-of-other", "proof-altered", "proof-dropped", "proof-extended", "amount-altered",
+                                 "address-altered", "index-altered", "other-tree", "proof-len-32",
+                                 // the special digests (boundary catalogue of the digest type) inside claims
+                                 "proof-zero-prepended", "proof-zero-appended", "proof-zero-inserted", "proof-zero-altered",
+                                 "proof-special-extended", "proof-special-altered"];
+/// the kinds that make sense for a one-leaf tree (empty honest proof)
+const CORRUPTIONS_1: [&str; 4] = ["proof-extended", "proof-zero-appended", "proof-special-extended", "proof-len-32"];
 
 /// one invalid claim derived from the leaf `l` of the current tree; the label says whether the index it
 /// names was still unclaimed (only then does the outcome depend on the proof check)
@@ -645,6 +783,16 @@ fn corrupt_claim(w: &mut W, out: &mut Out, d: &Dist, trees: &[(Dg, std::vec::Vec
             i = x.index; a = x.addr; m = x.amount; p = x.proof.clone();
         }
         "proof-len-32" => { p = (0..32).map(|_| w.rand_digest()).collect(); }
+        "proof-zero-prepended" => { p.insert(0, ZERO); }
+        "proof-zero-appended" => { p.push(ZERO); }
+        "proof-zero-inserted" => { if p.len() < 2 { return; } let j = 1 + w.rng.below(p.len() as u64 - 1) as usize; p.insert(j, ZERO); }
+        "proof-zero-altered" => { if p.is_empty() { return; } let j = w.rng.below(p.len() as u64) as usize; if p[j] == ZERO { return; } p[j] = ZERO; }
+        "proof-special-extended" | "proof-special-altered" => {
+            let sp = specials(w);
+            let x = sp[1 + w.rng.below(sp.len() as u64 - 1) as usize].1;
+            if kind == "proof-special-extended" { let j = w.rng.below(p.len() as u64 + 1) as usize; p.insert(j, x); }
+            else { if p.is_empty() { return; } let j = w.rng.below(p.len() as u64) as usize; p[j] = x; }
+        }
         _ => unreachable!(),
     }
     let tag = if claimed.contains(&i) { "claimed" } else { "unclaimed" };
@@ -658,16 +806,30 @@ fn claim_history(w: &mut W, out: &mut Out, d: &Dist, trees: &[(Dg, std::vec::Vec
         let root = Some(trees[k].0);
         // directed 1: on the fresh distributor (nothing claimed) every kind of invalid claim, so that the
         // outcome is decided by the proof check and not by the already-claimed guard
+        if lds.len() < 2 {
+            let v = lds[0].clone();
+            for kind in CORRUPTIONS_1 { corrupt_claim(w, out, d, trees, k, kind, &v, root, &mut claimed); }
+        }
         if lds.len() >= 2 {
             let v = lds.iter().find(|x| !x.misplaced).unwrap().clone();
             for kind in CORRUPTIONS { corrupt_claim(w, out, d, trees, k, kind, &v, root, &mut claimed); }
+            // the insertion in the middle needs a proof of two elements: the deepest leaf
+            let deep = lds.iter().filter(|x| !x.misplaced).max_by_key(|x| x.proof.len()).unwrap().clone();
+            if v.proof.len() < 2 && deep.proof.len() >= 2 { corrupt_claim(w, out, d, trees, k, "proof-zero-inserted", &deep, root, &mut claimed); }
             // a correctly hashed leaf whose embedded index is not its position (positional trees)
             if let Some(x) = lds.iter().find(|x| x.misplaced) { let x = x.clone();
                 w.entry = Some(true);
                 if do_claim(w, out, d, "index-not-position", x.index, x.addr, x.amount, &x.proof, root) { claimed.push(x.index); } }
         }
+        // directed 1b (trees padded with all-zero leaves): the honest claim of a leaf whose proof contains the
+        // all-zero digest must succeed, its repetition must fail
+        if let Some(zs) = lds.iter().find(|x| !x.misplaced && x.proof.contains(&ZERO)) { let zs = zs.clone();
+            if d.mixed { w.entry = Some(true); }
+            if do_claim(w, out, d, "honest-zero-sibling", zs.index, zs.addr, zs.amount, &zs.proof, root) { claimed.push(zs.index); }
+            do_claim(w, out, d, "repeat-zero-sibling", zs.index, zs.addr, zs.amount, &zs.proof, root);
+        }
         // directed 2: a flag (and the root) must survive a long gap during which nobody reads it
-        let l0 = lds.iter().find(|x| !x.misplaced).unwrap().clone();
+        let l0 = lds.iter().find(|x| !x.misplaced && !claimed.contains(&x.index)).or(lds.iter().find(|x| !x.misplaced)).unwrap().clone();
         w.leave_next = true;
         if d.mixed { w.entry = Some(true); }
         if do_claim(w, out, d, "honest", l0.index, l0.addr, l0.amount, &l0.proof, root) { claimed.push(l0.index); }
@@ -693,6 +855,15 @@ fn claim_history(w: &mut W, out: &mut Out, d: &Dist, trees: &[(Dg, std::vec::Vec
         let tag = if claimed.contains(&v.index) { "claimed" } else { "unclaimed" };
         let r = w.rand_digest(); do_set_root(w, out, d, "random", r);
         do_claim(w, out, d, &format!("root-random-{}", tag), v.index, v.addr, v.amount, &v.proof, Some(r));
+        // special digests as the root: nothing can be claimed against them, whatever the proof
+        let sp = specials(w);
+        let drawn = sp[1 + w.rng.below(sp.len() as u64 - 1) as usize].1;
+        for (name, r) in [("zero", ZERO), ("special", drawn)] {
+            do_set_root(w, out, d, name, r);
+            do_claim(w, out, d, &format!("root-{}-{}", name, tag), v.index, v.addr, v.amount, &v.proof, Some(r));
+            do_claim(w, out, d, &format!("root-{}-empty-proof-{}", name, tag), v.index, v.addr, v.amount, &[], Some(r));
+            do_claim(w, out, d, &format!("root-{}-same-proof-{}", name, tag), v.index, v.addr, v.amount, &[r], Some(r));
+        }
         let ot = (k + 1) % trees.len();
         do_set_root(w, out, d, "tree", trees[ot].0);
         if !trees[ot].1.iter().any(|y| y.hash == v.hash) {
@@ -725,7 +896,7 @@ fn claim_history(w: &mut W, out: &mut Out, d: &Dist, trees: &[(Dg, std::vec::Vec
                     do_claim(w, out, d, "repeat", x.index, x.addr, x.amount, &x.proof, cur_root); }
             }
             40..=79 => { // an invalid claim
-                if cur.is_some() { let kind = CORRUPTIONS[w.rng.below(9) as usize]; corrupt_claim(w, out, d, trees, tk, kind, &victim, cur_root, &mut claimed); }
+                if cur.is_some() { let kind = CORRUPTIONS[w.rng.below(CORRUPTIONS.len() as u64) as usize]; corrupt_claim(w, out, d, trees, tk, kind, &victim, cur_root, &mut claimed); }
             }
             80..=88 => { // root change
                 if root_changes {
@@ -757,16 +928,16 @@ fn claim_history(w: &mut W, out: &mut Out, d: &Dist, trees: &[(Dg, std::vec::Vec
     let k = GAPS[w.rng.below(6) as usize]; do_advance(w, out, d, k);
 }
 
-fn lib_dist_trace(out: &mut Out, rng: &mut Rng, hk: Hk, positional: bool, mixed: bool, n: usize, shape: Shape, steps: usize, hostcfg: usize, gap: u32) {
+fn lib_dist_trace(out: &mut Out, rng: &mut Rng, hk: Hk, positional: bool, mixed: bool, n: usize, shape: Shape, steps: usize, hostcfg: usize, gap: u32, pad: usize) {
     let mut w = W::new(hk, rng.fork(n as u64 + 5000), hostcfg);
     let id = match hk { Hk::S => w.e.register(libs::Lib, ()), Hk::K => w.e.register(libk::Lib, ()) };
     w.addrs.push(id.clone());
     let naddr = 3;
     for _ in 0..naddr { let a = Address::generate(&w.e); w.addrs.push(a); }
     let amounts = |r: &mut Rng, _k: usize| -> i128 { match r.below(6) { 0 => 0, 1 => -(r.below(50) as i128) - 1, 2 => r.i128_any(), _ => 1 + r.below(1000) as i128 } };
-    let (t1, r1, l1) = data_tree(&mut w, n, shape, positional, naddr, &amounts, 0);
+    let (t1, r1, l1) = data_tree(&mut w, n, shape, positional, naddr, &amounts, 0, pad);
     let n2 = 1 + w.rng.below(6) as usize;
-    let (t2, r2, l2) = data_tree(&mut w, n2, Shape::Random, positional, naddr, &amounts, 0);
+    let (t2, r2, l2) = data_tree(&mut w, n2, Shape::Random, positional, naddr, &amounts, 0, 0);
     if mixed {
         // both entry points on one contract: the roots are the positional ones; what the sorted
         // verification can find under such a root is the tree cut at its descending pairs
@@ -786,11 +957,11 @@ fn lib_dist_trace(out: &mut Out, rng: &mut Rng, hk: Hk, positional: bool, mixed:
       do_claim(&mut w, out, &d, "no-root", l.index, l.addr, l.amount, &l.proof, None); }
     do_set_root(&mut w, out, &d, "tree", trees[0].0); cur.replace(0usize);
     claim_history(&mut w, out, &d, &trees, cur, steps, true, gap);
-    let desc = format!("distributor {} {} n={} {:?} hostcfg={} gap={}", hk.name(), if mixed { "mixed-entry-points" } else if positional { "indexed" } else { "sorted" }, n, shape, hostcfg % 2, gap);
+    let desc = format!("distributor {} {} n={} pad={} {:?} hostcfg={} gap={}", hk.name(), if mixed { "mixed-entry-points" } else if positional { "indexed" } else { "sorted" }, n, pad, shape, hostcfg % 2, gap);
     w.finish(out, &desc, &obs0, 0);
 }
 
-fn airdrop_trace(out: &mut Out, rng: &mut Rng, n: usize, shape: Shape, steps: usize, underfunded: bool, hostcfg: usize, gap: u32) {
+fn airdrop_trace(out: &mut Out, rng: &mut Rng, n: usize, shape: Shape, steps: usize, underfunded: bool, hostcfg: usize, gap: u32, pad: usize) {
     let mut w = W::new(Hk::S, rng.fork(n as u64 + 9000), hostcfg);
     // token (Stellar asset contract) and funding
     w.e.mock_all_auths_allowing_non_root_auth();
@@ -806,9 +977,9 @@ fn airdrop_trace(out: &mut Out, rng: &mut Rng, n: usize, shape: Shape, steps: us
     for _ in 0..naddr { let a = Address::generate(&w.e); w.addrs.push(a); }
     // the first leaf of every tree has the largest amount (it is claimed first)
     let amounts = |r: &mut Rng, k: usize| -> i128 { if k == 0 { 2000 + r.below(1000) as i128 } else { match r.below(8) { 0 => 0, 1 => -(r.below(50) as i128) - 1, _ => 1 + r.below(1000) as i128 } } };
-    let (t1, r1, mut l1) = data_tree(&mut w, n, shape, false, naddr, &amounts, 0);
+    let (t1, r1, mut l1) = data_tree(&mut w, n, shape, false, naddr, &amounts, 0, pad);
     let n2 = 1 + w.rng.below(4) as usize;
-    let (t2, r2, l2) = data_tree(&mut w, n2, Shape::Random, false, naddr, &amounts, 0);
+    let (t2, r2, l2) = data_tree(&mut w, n2, Shape::Random, false, naddr, &amounts, 0, 0);
     w.strees = vec![t1, t2];
     let total: i128 = l1.iter().map(|x| x.amount.max(0)).sum();
     // under-funded: one token short of the largest leaf, so that the first honest claim fails for lack of funds
@@ -824,7 +995,7 @@ fn airdrop_trace(out: &mut Out, rng: &mut Rng, n: usize, shape: Shape, steps: us
     l1.sort_by_key(|x| std::cmp::Reverse(x.amount));
     let trees = vec![(r1, l1), (r2, l2)];
     claim_history(&mut w, out, &d, &trees, Some(0), steps, false, gap);
-    let desc = format!("airdrop n={} {:?} {} hostcfg={} gap={}", n, shape, if underfunded { "underfunded" } else { "funded" }, hostcfg % 2, gap);
+    let desc = format!("airdrop n={} pad={} {:?} {} hostcfg={} gap={}", n, pad, shape, if underfunded { "underfunded" } else { "funded" }, hostcfg % 2, gap);
     w.finish(out, &desc, &obs0, 0);
 }
 
@@ -858,6 +1029,13 @@ fn main() {
             chain_trace(&mut out, &mut rng, hk, n, right);
         }
     }
+    // ---- trees that contain the special digests (all-zero padding, all-ones, ...), both hashers
+    for (k, hk) in [Hk::S, Hk::K].into_iter().enumerate() {
+        for r in 0..(if thorough { 6 } else { 1 }) * scale {
+            let sh = SHAPES[(out.cfg.seed as usize + k + r) % 6];
+            special_trace(&mut out, &mut rng, hk, sh, k + r);
+        }
+    }
     // ---- distributor (library, both hashers, both forms)
     let mut tno = out.cfg.seed as usize;
     let nd = (if thorough { 60 } else { 5 }) * scale;
@@ -870,7 +1048,10 @@ fn main() {
                 // the first round has fixed sizes (a one-leaf sorted tree, four-leaf positional trees)
                 let n = if k == 0 { if positional { 4 } else { 1 } } else if k == 1 { 5 } else { n };
                 if mixed && k >= (nd + 1) / 2 { continue; }
-                lib_dist_trace(&mut out, &mut rng, hk, positional, mixed, n, sh, if thorough { 60 } else { 30 }, tno / 6, GAPS[tno % 6]);
+                // the third round: trees padded with all-zero leaves (four data leaves, balanced, so that the first leaf's
+                // sibling is a padding leaf); later rounds are padded one time in four
+                let (n, sh, pad) = if k == 2 { (4, Shape::Pow2, 2) } else if k > 2 && rng.chance(1, 4) { (n, sh, 1 + rng.below(3) as usize) } else { (n, sh, 0) };
+                lib_dist_trace(&mut out, &mut rng, hk, positional, mixed, n, sh, if thorough { 60 } else { 30 }, tno / 6, GAPS[tno % 6], pad);
             }
         }
     }
@@ -880,7 +1061,9 @@ fn main() {
         let n = if k == 0 { 4 } else { 1 + rng.below(10) as usize };
         let sh = SHAPES[rng.below(6) as usize];
         tno += 1;
-        airdrop_trace(&mut out, &mut rng, n, sh, if thorough { 50 } else { 30 }, k % 3 == 1, tno / 6, GAPS[tno % 6]);
+        // the third trace (funded): a tree padded with all-zero leaves; later ones one time in four
+        let (n, sh, pad) = if k == 2 { (4, Shape::Pow2, 2) } else if k > 2 && rng.chance(1, 4) { (n, sh, 1 + rng.below(3) as usize) } else { (n, sh, 0) };
+        airdrop_trace(&mut out, &mut rng, n, sh, if thorough { 50 } else { 30 }, k % 3 == 1, tno / 6, GAPS[tno % 6], pad);
     }
     out.finish();
 }
